@@ -350,15 +350,27 @@ class InstrLabel : public Directive {
   std::string label;
   int labelValue;
   bool relative;
+  size_t length;
 public:
   InstrLabel(Token token, std::string label, bool relative) :
-      Directive(token), label(label), relative(relative) {}
+      Directive(token), label(label), labelValue(0), relative(relative), length(0) {}
   InstrLabel(Location location, Token token, std::string label, bool relative) :
-      Directive(location, token), label(label), relative(relative) {}
-  void setLabelValue(int newValue) { labelValue = newValue; }
+      Directive(location, token), label(label), labelValue(0), relative(relative), length(0) {}
+  /// Update the operand value and encoding length, return true if either changed.
+  bool setLabelValue(int newValue, size_t newLength=0) {
+    bool changed = labelValue != newValue || length != newLength;
+    labelValue = newValue;
+    length = newLength;
+    return changed;
+  }
   bool operandIsLabel() const { return true; }
   bool isRelative() const { return relative; }
   size_t getSize() const {
+    if (length > 0) {
+      // The length the operand was computed for (a relative operand depends
+      // on the length of its own encoding).
+      return length;
+    }
     return (labelValue < 0 && numNibbles(labelValue) == 1) ? 2 : numNibbles(labelValue);
   }
   int getValue() const { return labelValue; }
@@ -728,19 +740,36 @@ class CodeGen {
     }
   }
 
-  /// Iteratively update label values until the program size does not change.
-  /// Return the final size of the program.
+  /// Return true if the directive at index is a label (or the first of a run
+  /// of labels) placed directly before a DATA directive.
+  bool labelBeforeData(size_t index) const {
+    auto isLabel = [](Token t) { return t == Token::IDENTIFIER || t == Token::FUNC || t == Token::PROC; };
+    if (!isLabel(program[index]->getToken())) {
+      return false;
+    }
+    while (index < program.size() && isLabel(program[index]->getToken())) {
+      index++;
+    }
+    return index < program.size() && program[index]->getToken() == Token::DATA;
+  }
+
+  /// Iteratively update label values, operands and offsets until none of
+  /// them changes.
   void resolveLabels() {
-    int lastSize = -1;
-    int byteOffset = 0;
-    //int count = 0;
-    while (lastSize != byteOffset) {
-      //std::cout << "Resolving labels iteration " << count++ << "\n";
-      lastSize = byteOffset;
-      byteOffset = 0;
-      for (auto &directive : program) {
-        if (directive->getToken() == Token::DATA) {
-          // Data must be on 4-byte boundaries.
+    bool changed = true;
+    size_t passes = 0;
+    const size_t maxPasses = 8 * program.size() + 8;
+    while (changed) {
+      if (passes++ > maxPasses) {
+        throw Error("label resolution did not converge");
+      }
+      changed = false;
+      int byteOffset = 0;
+      for (size_t index = 0; index < program.size(); index++) {
+        auto &directive = program[index];
+        if (directive->getToken() == Token::DATA || labelBeforeData(index)) {
+          // Data must be on 4-byte boundaries, and a label placed directly
+          // before it names the aligned word.
           if (byteOffset & 0x3) {
             byteOffset += 4 - (byteOffset & 0x3);
           }
@@ -749,7 +778,7 @@ class CodeGen {
         if (directive->getToken() == Token::IDENTIFIER ||
             directive->getToken() == Token::FUNC ||
             directive->getToken() == Token::PROC) {
-          dynamic_cast<Label*>(directive.get())->setLabelValue(byteOffset);
+          changed |= dynamic_cast<Label*>(directive.get())->setLabelValue(byteOffset);
         }
         // Update the label operand value of an instruction, accounting for
         // relative and absolute references.
@@ -760,20 +789,20 @@ class CodeGen {
           }
           int labelValue = labelMap[instrLabel->getLabel()]->getValue();
           if (instrLabel->isRelative()) {
-            int offset = labelValue - byteOffset;
-            //std::cout << "label value " << labelValue
-            //          << " byteOffset " << byteOffset
-            //          << " offset " << offset
-            //          << " instrlen " << instrLen(labelValue, byteOffset) << "\n";
-            if (offset >= 0) {
-              instrLabel->setLabelValue(offset - instrLen(labelValue, byteOffset));
-            } else {
-              instrLabel->setLabelValue(offset - instrLen(labelValue, byteOffset));
-            }
+            // Keep the length the offset was computed for, so that the
+            // encoding is padded with a prefix when the offset alone would
+            // need fewer nibbles.
+            int length = instrLen(labelValue, byteOffset);
+            changed |= instrLabel->setLabelValue(labelValue - byteOffset - length, length);
           } else {
-            assert((labelValue & 0x3) == 0 && "absolute label value is not word aligned");
-            instrLabel->setLabelValue(labelValue >> 2);
+            if (labelValue & 0x3) {
+              throw Error(directive->getLocation(), "absolute label value is not word aligned");
+            }
+            changed |= instrLabel->setLabelValue(labelValue >> 2);
           }
+        }
+        if (directive->getByteOffset() != static_cast<unsigned>(byteOffset)) {
+          changed = true;
         }
         directive->setByteOffset(byteOffset);
         byteOffset += directive->getSize();
@@ -821,8 +850,16 @@ public:
   /// Emit each directive of the program as binary.
   void emitProgramBin(std::ostream &outputFile) {
     int byteOffset = 0;
-    for (auto &directive : program) {
+    for (size_t index = 0; index < program.size(); index++) {
+      auto &directive = program[index];
       size_t size = directive->getSize();
+      if (labelBeforeData(index) && (byteOffset & 0x3)) {
+        // Padding so that the label names the aligned data word.
+        int paddingBytes = 4 - (byteOffset & 0x3);
+        int paddingValue = 0;
+        outputFile.write(reinterpret_cast<const char*>(&paddingValue), paddingBytes);
+        byteOffset += paddingBytes;
+      }
       // Func
       if (directive->getToken() == Token::FUNC) {
         auto funcDirective = dynamic_cast<Func*>(directive.get());
